@@ -140,8 +140,14 @@ def k_config(N=2, G=2):
         elif inv == 4:
             if g < 2:
                 return
-            data["submission_groups"][1]["submitter_params"]["max_nodes"] = 7
-            label = "max_nodes differs between groups"
+            vals = [None, 3, 7]  # unset / set, in either group, in either order
+            v0, v1 = vals[ex.choice("max_nodes_g0", 3)], vals[ex.choice("max_nodes_g1", 3)]
+            data["submission_groups"][0]["submitter_params"]["max_nodes"] = v0
+            data["submission_groups"][1]["submitter_params"]["max_nodes"] = v1
+            if v0 == v1:
+                inv = 0
+            else:
+                label = "max_nodes differs between groups (%s, %s)" % (v0, v1)
         elif inv == 5:
             if g < 2 or data["submission_groups"][0]["submitter_params"].get("resource_monitor_interval") == 3:
                 return  # (with a monitor interval below it, submit-jobs lowers every group's poll interval: not an invalid input)
